@@ -48,6 +48,11 @@ Hls2 == {"h1", "h2"}
 \* configurations with an RTSP origin override it (PullHdrMsgs <- PullHdrRtsp).
 PullHdrMsgs == 0
 PullHdrRtsp == 3
+\* RTSP players that stay (C03: which description does the stream hand out): a player asks for the description of the
+\* stream on its own connection (DESCRIBE) and is answered at once if the accepted input has one, otherwise it stays
+\* parked until an input that has one is accepted.  A definition like HlsSubs (Players <- Pl1).
+Players == {}
+Pl1 == {"v1"}
 
 NetPubs == RtmpPubs \cup RtspPubs \cup WirePubs
 \* sessions whose server goroutine reports their departure as soon as they are disposed (the driver owns
@@ -74,10 +79,12 @@ VARIABLES grp,      \* the group exists
           down,     \* the server has been shut down (ServerManager.Dispose): nothing happens any more
           idl,      \* idle check per session (BasicSessionStat.staleStat): new (never checked) | moved | still
           nsweeps,
+          pl,       \* RTSP players: [s: idle | parked (asked, no description yet) | got | gone, d: whose description it was given]
           act
 
-vars == <<grp, inp, owner, ss, closed, nh, pull, clock, nticks, push, patt, down, idl, nsweeps, act>>
-View == <<grp, inp, owner, ss, closed, nh, pull, clock, nticks, push, patt, down, idl, nsweeps>>
+vars == <<grp, inp, owner, ss, closed, nh, pull, clock, nticks, push, patt, down, idl, nsweeps, pl, act>>
+View == <<grp, inp, owner, ss, closed, nh, pull, clock, nticks, push, patt, down, idl, nsweeps, pl>>
+PlIdle == [s |-> "idle", d |-> ""]
 
 PIdle == [s |-> "idle", n |-> 0]
 PullInit == [api |-> FALSE, flying |-> FALSE, att |-> FALSE, n |-> 0, lastOut |-> 0, attempts |-> 0, gen |-> 0]
@@ -88,9 +95,11 @@ Init == /\ grp = FALSE /\ inp = "" /\ owner = ""
         /\ pull = PullInit /\ clock = 0 /\ nticks = 0 /\ down = FALSE
         /\ push = [t \in PushTargets |-> PIdle] /\ patt = 0
         /\ idl = [x \in Sessions |-> "new"] /\ nsweeps = 0
+        /\ pl = [x \in Players |-> PlIdle]
         /\ act = [name |-> "init"]
 
-HasSub == \E x \in AllSubs : ss[x] = "in"
+PlAttached(x) == pl[x].s \in {"parked", "got"}      \* (lal counts a player as a subscriber from DESCRIBE on)
+HasSub == (\E x \in AllSubs : ss[x] = "in") \/ (\E x \in Players : PlAttached(x))
 \* Group.hasSubSession(): subscribers of any protocol (HLS sessions too), or an installed stream hook
 HasOutM == HasSub \/ (HookOn /\ owner # "")
 HasIn == inp # ""
@@ -241,6 +250,17 @@ HlsExpire(x) ==
   /\ act' = [name |-> "HlsExpire", x |-> x, obs |-> Obs("ok", <<N("sub_stop", x)>>, <<>>)]
   /\ UNCHANGED <<grp, inp, owner, closed, pull, clock, nticks>>
 
+\* the address of client x is put on the IP black-list (add_ip_blacklist) and x asks again with its session_id: the
+\* session ends at that request - one sub_stop, like any other departure -, the request (and a retry) gets no content,
+\* and the handler's sweep has nothing left to report.  From then on x is refused like any client whose session has
+\* ended (HlsPoll).  Every client has an address of its own.
+HlsBlacklist(x) ==
+  /\ x \in HlsSubs /\ ss[x] = "in" /\ grp
+  /\ ss' = [ss EXCEPT ![x] = "gone"]
+  /\ nh' = [nh EXCEPT ![x] = "stopped"]
+  /\ act' = [name |-> "HlsBlacklist", x |-> x, obs |-> Obs("ok", <<N("sub_stop", x)>>, <<>>)]
+  /\ UNCHANGED <<grp, inp, owner, closed, pull, clock, nticks>>
+
 \* time passes - more than sub_session_timeout_ms and a sweep - while every attached client keeps asking: nothing happens
 \* (requests with the session_id are what keeps a session alive).  Only in configurations that ask for it
 \* (HlsLingerOn <- Yes): the step costs real time.
@@ -280,8 +300,9 @@ Kick(x) ==
   /\ UNCHANGED <<grp, pull, clock, nticks>>
 
 \* one media message offered by x: forwarded (the stream hook sees it) iff x is the accepted input
+\* (a GB28181 input that has ended: its device goes on sending on the connection it had - TCP mode)
 Probe(x) ==
-  /\ x \in Pubs /\ (ss[x] = "in" \/ (x \in CustPubs /\ ss[x] = "gone"))
+  /\ x \in Pubs /\ (ss[x] = "in" \/ (x \in CustPubs \cup PsPubs /\ ss[x] = "gone"))
   /\ LET hk  == IF HookOn /\ inp = x /\ owner # "" THEN [i \in 1..ProbeMsgs |-> N("hook_msg", owner)] ELSE <<>>
          fwd == inp = x /\ \E y \in FwdSubs : ss[y] = "in" /\ ~closed[y]     \* an attached, un-kicked subscriber received it
      IN act' = [name |-> "Probe", x |-> x,
@@ -444,11 +465,38 @@ Describe ==
   /\ grp' = TRUE     \* (the group is created for the asking session)
   /\ UNCHANGED <<inp, owner, ss, closed, nh, pull, clock, nticks>>
 
+\* ---- RTSP players that stay (C03: the stream's description is that of the accepted input)
+\* The description of the stream is the accepted input's: an RTSP publisher announced it, an RTSP origin described
+\* the stream the pull carries; the other inputs of this model have none (the driver never sends the 16 messages from
+\* which lal would build one).  An input that was refused, or has left, describes nothing: "neither that refusal nor
+\* the later departure of any session other than the accepted input changes ... the stream's outputs".
+DescOf(i) == IF i \in RtspPubs THEN i ELSE IF i = "pull" /\ PullHdrMsgs > 0 THEN "pull" ELSE ""
+PlayerAsk(x) ==
+  /\ x \in Players /\ pl[x].s = "idle"
+  /\ grp' = TRUE     \* (the group is created for the asking session)
+  /\ pull' = Created(pull)
+  /\ LET d == DescOf(inp)
+     IN /\ pl' = [pl EXCEPT ![x] = [s |-> IF d = "" THEN "parked" ELSE "got", d |-> d]]
+        /\ act' = [name |-> "PlayerAsk", x |-> x,
+                   obs |-> ObsP(IF d = "" THEN "wait" ELSE "sdp:" \o d, <<N("sub_start", x)>>, <<>>, pull')]
+  /\ UNCHANGED <<inp, owner, ss, closed, nh, clock, nticks>>
+\* the player hangs up
+PlayerBye(x) ==
+  /\ x \in Players /\ PlAttached(x) /\ grp
+  /\ pl' = [pl EXCEPT ![x] = [s |-> "gone", d |-> ""]]
+  /\ act' = [name |-> "PlayerBye", x |-> x, obs |-> Obs("ok", <<N("sub_stop", x)>>, <<>>)]
+  /\ UNCHANGED <<grp, inp, owner, ss, closed, nh, pull, clock, nticks>>
+PlayerStep == \E x \in Players : PlayerAsk(x) \/ PlayerBye(x)
+\* what a step of the session bookkeeping does to the players: a parked player is answered when an input that has a
+\* description becomes the accepted one - and by nothing else
+PlayFx == pl' = [x \in Players |-> IF pl[x].s = "parked" /\ inp' # inp /\ DescOf(inp') # ""
+                                    THEN [s |-> "got", d |-> DescOf(inp')] ELSE pl[x]]
+
 Step == \/ \E x \in NetPubs : NewPub(x) \/ DelPub(x)
         \/ \E x \in CustPubs : AddCust(x) \/ DelCust(x)
         \/ \E x \in PsPubs : StartPs(x)
         \/ \E x \in Subs : NewSub(x) \/ DelSub(x)
-        \/ \E x \in HlsSubs : HlsOpen(x) \/ HlsPoll(x) \/ HlsExpire(x)
+        \/ \E x \in HlsSubs : HlsOpen(x) \/ HlsPoll(x) \/ HlsExpire(x) \/ HlsBlacklist(x)
         \/ HlsLinger
         \/ \E x \in Sessions : Kick(x)
         \/ \E x \in Pubs : Probe(x)
@@ -460,7 +508,7 @@ Step == \/ \E x \in NetPubs : NewPub(x) \/ DelPub(x)
 \* after the shutdown nothing happens; Halt only exists so that a simulated behaviour still has a
 \* step after Shutdown (the emission prints the action that led to the current state)
 Halt == /\ down /\ act.name # "Halt" /\ act' = [name |-> "Halt"]
-        /\ UNCHANGED <<grp, inp, owner, ss, closed, nh, pull, clock, nticks, push, patt, down, idl, nsweeps>>
+        /\ UNCHANGED <<grp, inp, owner, ss, closed, nh, pull, clock, nticks, push, patt, down, idl, nsweeps, pl>>
 \* what a step of the session bookkeeping does to relay push
 PushFx ==
   IF grp /\ ~grp' THEN push' = [t \in PushTargets |-> PIdle] /\ patt' = patt          \* group removed
@@ -505,7 +553,7 @@ IdlFx == idl' = IF act'.name = "Probe"
                   THEN [x \in Sessions |-> IF idl[x] = "still" /\ Touched(x, act'.x) THEN "moved" ELSE idl[x]]
                   ELSE idl
 Sweep ==
-  /\ ~PullEnabled /\ PushTargets = {} /\ TsSubs = {} /\ HlsSubs = {} /\ nsweeps < MaxSweep
+  /\ ~PullEnabled /\ PushTargets = {} /\ TsSubs = {} /\ HlsSubs = {} /\ Players = {} /\ nsweeps < MaxSweep
   /\ nsweeps' = nsweeps + 1
   /\ IF ~grp THEN /\ act' = [name |-> "Sweep", obs |-> Obs("ok", <<>>, <<>>)]
                   /\ UNCHANGED <<grp, inp, owner, ss, closed, nh, idl>>
@@ -529,10 +577,11 @@ Sweep ==
   /\ UNCHANGED <<pull, clock, nticks, push, patt, down>>
 
 Next == \/ /\ ~down
-           /\ \/ (Step /\ PushFx /\ IdlFx /\ down' = down /\ nsweeps' = nsweeps)
-              \/ (PushStep /\ down' = down /\ UNCHANGED <<idl, nsweeps>>)
-              \/ Sweep
-              \/ (Shutdown /\ UNCHANGED <<idl, nsweeps>>)
+           /\ \/ (Step /\ PushFx /\ IdlFx /\ PlayFx /\ down' = down /\ nsweeps' = nsweeps)
+              \/ (PushStep /\ down' = down /\ UNCHANGED <<idl, nsweeps, pl>>)
+              \/ (PlayerStep /\ UNCHANGED <<push, patt, down, idl, nsweeps>>)
+              \/ (Sweep /\ UNCHANGED pl)
+              \/ (Shutdown /\ UNCHANGED <<idl, nsweeps, pl>>)
         \/ Halt
 Spec == Init /\ [][Next]_vars
 
@@ -552,6 +601,9 @@ NotifyPaired ==
     /\ (ss[x] = "in") => nh[x] = "started"
     /\ (ss[x] = "gone") => nh[x] = "stopped"
     /\ (ss[x] \in {"idle", "refused"}) => nh[x] = "none"
+\* C03: a player holds the description of an input that can have one (and, by PlayFx / PlayerAsk, of the one that was
+\* accepted when it was answered)
+PlayerSane == \A x \in Players : (pl[x].s = "got") = (pl[x].d # "") /\ (pl[x].d # "" => pl[x].d \in RtspPubs \cup {"pull"})
 \* C17: an attempt is in flight only while the module says so; never while an input is attached by it
 PullSane == /\ (pull.att => pull.flying) /\ (pull.att => inp = "pull")
 \* C17: relay push is attached only while an RTMP / RTSP publisher is the input (it ends with the publisher)
@@ -568,11 +620,11 @@ IdleDisconnectedAct ==
           ELSE (ss'[x] = "in" /\ closed'[x] = closed[x])]_vars
 
 St == [grp |-> grp, inp |-> inp, owner |-> owner, ss |-> ss, closed |-> closed, pull |-> pull, clock |-> clock,
-       nticks |-> nticks, down |-> down, push |-> push, patt |-> patt, idl |-> idl, nsweeps |-> nsweeps]
+       nticks |-> nticks, down |-> down, push |-> push, patt |-> patt, idl |-> idl, nsweeps |-> nsweeps, pl |-> pl]
 Emit == PrintT("@E@" \o ToJson([f |-> St, a |-> act',
                                  t |-> [grp |-> grp', inp |-> inp', owner |-> owner', ss |-> ss', closed |-> closed',
                                         pull |-> pull', clock |-> clock', nticks |-> nticks', down |-> down', push |-> push', patt |-> patt',
-                                        idl |-> idl', nsweeps |-> nsweeps'],
+                                        idl |-> idl', nsweeps |-> nsweeps', pl |-> pl'],
                                  l |-> TLCGet("level")]))
 EmitA == PrintT("@A@" \o ToJson([a |-> act, l |-> TLCGet("level")]))
 =============================================================================
